@@ -5,7 +5,7 @@ from report import Rule
 from mirlib import callee_name, op_const, op_place
 import mustlib as M
 from astlib import find_all, find_first, show, show_pat, quotes_in, tok_text
-from rules.common import flat, flatp, has, same
+from rules.common import flat, flatp, has, same, xquotes
 
 EXPLANATION = (
     "Static structural analysis (syntax facts of context.rs and of the t! template, MIR facts of the context constructors); "
@@ -67,7 +67,7 @@ def r2_reread(ctx):
     if fn is None:
         r.missing("OutputType::wrapp")
         return r
-    qs = [flat(tok_text(q["tokens"])) for q in quotes_in(fn.body)]
+    qs = [flat(tok_text(q["tokens"])) for q in xquotes(fn.body)]
     view = [q for q in qs if "move||" in q]
     ok = bool(view) and all(re.match(r"^\{#params(leptos_i18n::__private::future_renderer\()?move\|\|\{#clone_values#ts\}\)?\}$", q) for q in view)
     if ok:
@@ -76,13 +76,13 @@ def r2_reread(ctx):
         r.viol("R2:wrapp#view", "the accessor chain is not (only) inside the emitted closure: %s" % view, file=fn.file, line=fn.line)
     fn = ctx.ast.fn(TM, "t_macro_inner")
     t = flatp(show(fn.body)) if fn else ""
-    qs = [flat(tok_text(q["tokens"])) for q in quotes_in(fn.body)] if fn else []
+    qs = [flat(tok_text(q["tokens"])) for q in xquotes(fn.body)] if fn else []
     if any(q.startswith("{let_builder=#get_key.#builder_fn();") for q in qs) and "let(#(#keys,)*)=(#(#values,)*);" in qs:
         r.inst("t_macro_inner", "`#get_key` is part of the inner block (#ts); only `let (keys..) = (values..)` is hoisted as #params")
     else:
         r.viol("R2:t_macro_inner", "get_key is no longer part of the re-evaluated block", file=TM)
     fn = ctx.ast.fn(TM, "get_key", impl_self="InputType")
-    qs = [flat(tok_text(q["tokens"])) for q in quotes_in(fn.body)] if fn else []
+    qs = [flat(tok_text(q["tokens"])) for q in xquotes(fn.body)] if fn else []
     if "leptos_i18n::I18nContext::get_keys(#input).#keys()" in qs:
         r.inst("InputType::Context", "tracked read: I18nContext::get_keys")
     else:
